@@ -3,3 +3,4 @@ import Driver.Tags
 import Driver.Proto
 import Driver.Frame
 import Driver.Cmd
+import Driver.Song
